@@ -11,6 +11,7 @@ the bytes of the written file after the header block, the extension list / data 
 the re-loaded image, and the refusal of too small a user offset.
 """
 import io
+import os
 import itertools
 import warnings
 
@@ -178,6 +179,15 @@ def gen_cases(chk):
         else:
             vox = minv + rng.choice([16, 24, 32, 160])     # >= 16 bytes slack (S-C11a when exts)
         cases.append(dict(exts=exts, be=be, cls=cls, single=single, vox=vox, objs=objs))
+    # user offsets far beyond the minimum, written through a stream that cannot seek while writing
+    # (bz2): the gap is filled by seek_tell(write0=True); seed-independent core
+    for j, gap in enumerate([1, 15, 16, 8191, 8192, 8193, 16384, 20000, 70000]):
+        for cls in (1, 2):
+            hs = 348 if cls == 1 else 540
+            exts = [(6, bytes([65 + j] * (j * 7 % 40)))] if j % 2 else []
+            minv = hs + 4 + sum((len(c) + 23) // 16 * 16 for _, c in exts)
+            cases.append(dict(exts=exts, be=bool(j % 2), cls=cls, single=True, vox=minv + gap, objs={},
+                              comp='bz2' if (j + cls) % 3 else 'plain'))
     return cases
 
 
@@ -223,6 +233,11 @@ def impl_run(case):
     if case['vox']:
         img.header.set_data_offset(case['vox'])
     fm = {'image': FileHolder(fileobj=io.BytesIO()), 'header': FileHolder(fileobj=io.BytesIO())}
+    raw_sink = None
+    if case.get('comp') == 'bz2':
+        import tempfile
+        raw_sink = tempfile.TemporaryDirectory(prefix='verif_c11_')
+        fm['image'] = FileHolder(filename=os.path.join(raw_sink.name, 'x.nii.bz2'))
     if case['single']:
         fm['header'] = fm['image']
     try:
@@ -230,11 +245,19 @@ def impl_run(case):
             warnings.simplefilter('ignore')
             img.to_file_map(fm)
     except HeaderDataError as e:
+        if raw_sink is not None:
+            raw_sink.cleanup()
         out['write'] = 'err offset_too_small'
         out['sizes'] = [int(e.get_sizeondisk()) for e in img.header.extensions]
         return out
-    hb = fm['header'].fileobj.getvalue()
-    ib = fm['image'].fileobj.getvalue()
+    if raw_sink is not None:
+        import bz2
+        with open(fm['image'].filename, 'rb') as _f:
+            hb = ib = bz2.decompress(_f.read())
+        raw_sink.cleanup()
+    else:
+        hb = fm['header'].fileobj.getvalue()
+        ib = fm['image'].fileobj.getvalue()
     out['write'] = 'ok'
     out['sizes'] = [int(e.get_sizeondisk()) for e in img.header.extensions]
     out['hdr_tail'] = hb[hsize:]
@@ -252,8 +275,8 @@ def impl_run(case):
             out['read_exts'] = [(int(e.get_code()), bytes(e.content)) for e in img2.header.extensions]
             out['offset'] = int(img2.dataobj.offset)
             out['read_data'] = np.asarray(img2.dataobj).tobytes(order='F')
-    except HeaderDataError as e:
-        out['read'] = 'err HeaderDataError: ' + str(e)[:60]   # the text is informational, never compared
+    except Exception as e:  # any failure to re-load is an outcome (a property violation), never a harness crash
+        out['read'] = 'err ' + type(e).__name__ + ': ' + str(e)[:60]   # the text is informational, never compared
     return out
 
 
@@ -288,6 +311,8 @@ def run(chk: Check):
                   sample={'exts': [(cd, b.hex()) for cd, b in c['exts']], 'be': c['be'], 'cls': c['cls'],
                           'single': c['single'], 'vox': c['vox']} if i in (3, 80, 200) else None)
         chk.tagc('single' if c['single'] else 'pair')
+        if c.get('comp'):
+            chk.tagc('route:' + c['comp'])
         for _sp, _mode, _s0 in (c.get('objs') or {}).values():
             chk.tagc('ext_backed_by:' + _mode)
         chk.tagc('vox:' + ('auto' if c['vox'] == 0 else 'too_small' if c['vox'] < minv else
